@@ -636,6 +636,8 @@ def molecule(name, gi, seed, uhf=False):
         g, q, spin, basis, frozen, scales = MOLS[name]
         s = scales[gi] * (1.0 + 0.05 * runner.seed_delta(seed))
         xyz = [(el, tuple(round(s * x, 10) for x in c)) for el, c in GEOMS[g]]
+        if uhf and isinstance(frozen, list):
+            frozen = [list(frozen), list(frozen)]          # UHF: one list per spin
         with quiet():
             m = SecondQuantizedMolecule(xyz, q, spin, basis=basis, frozen_orbitals=frozen, uhf=uhf)
         _MOLC[k] = m
